@@ -32,7 +32,8 @@ import Nstd.Callback.LemmasAudit
   the live object its variable holds, ids >= `nextL` are pristine).  Only for programs that name listener variables < nl: in
   `exec`, a variable >= nl starts with the object id that `newL` hands out later, so two variables can alias there (harmless
   for the theorems about `exec`, which quantify over all programs, but the two evaluators then differ).
-  OPEN: EMITTER address reuse.  `Sim` is NOT kept by constructing an emitter at a destroyed id while activations of the
+  `sim_reviveE`: constructing an emitter at a destroyed id keeps `Sim` WHEN NO ACTIVATION OF THE OLD EMITTER IS ON THE STACK.
+  OPEN: EMITTER address reuse in general.  `Sim` is NOT kept by constructing an emitter at a destroyed id while activations of the
   old emitter are still on the stack (`FInv.act`: `data.activation = topOf frames (e, g)` would see the old, invalidated
   frames), and the specification identifies an emission in progress by (e, g): its `finish` would decrement the depth of the
   new emitter's signal.  Needed: frames / emissions keyed by a generation of the emitter id, or a relation that ignores
@@ -308,5 +309,132 @@ example : (runOpsRL machineRL reuseProg 20 (Run.init State.fresh 1 2) [.connect 
 /-- … the id of the variable is still 0 (reuse), where `exec` has moved on to a new id -/
 example : (runOpsRL machineRL reuseProg 20 (Run.init State.fresh 1 2) [.connect 0 0 0 0, .connect 0 0 1 0, .emit 0 0 1]).lId 0 = 0 := by decide
 example : (runOps machine reuseProg 20 (Run.init State.fresh 1 2) [.connect 0 0 0 0, .connect 0 0 1 0, .emit 0 0 1]).lId 0 = 2 := by decide
+
+/-! ### emitter address reuse: where it keeps the simulation -/
+
+/-- the specification with emitter address reuse: the id is alive again, has no connection and no emission in progress -/
+def Spec.reviveE (e : Nat) (s : SState) : SState :=
+  { s with eAlive := fun e' => if e' = e then true else s.eAlive e'
+           sig := fun e' g => if e' = e then Sig.empty else s.sig e' g
+           lsig := fun l e' => if e' = e then [] else s.lsig l e' }
+
+theorem countFrames_zero {fs : List Frame} {e g : Nat} (h : ∀ f ∈ fs, f.data.1 ≠ e) : countFrames fs (e, g) = 0 := by
+  induction fs with
+  | nil => rfl
+  | cons f fs ih =>
+    have hf : ¬ f.data = (e, g) := fun hh => h f (List.mem_cons_self ..) (by rw [hh])
+    simp only [countFrames, hf, if_false, Nat.zero_add]
+    exact ih (fun f' hf' => h f' (List.mem_cons_of_mem _ hf'))
+
+theorem reviveE_data_ne (e e' g : Nat) (m : State) (h : e' ≠ e) : (reviveE e m).data e' g = m.data e' g := by
+  simp [reviveE, State.data, State.setEmitter, h]
+
+theorem reviveE_data_self (e g : Nat) (m : State) : (reviveE e m).data e g = none := by
+  simp [reviveE, State.data, State.setEmitter]
+
+/-- **Re-creating an emitter at the address of a destroyed one keeps the simulation WHEN NO ACTIVATION OF THE OLD EMITTER IS
+    STILL ON THE STACK** (e.g. at top level, or after its emissions have unwound).  The remaining case — an emitter destroyed
+    inside one of its own emissions and re-created at the same address before that emission has returned — is the OPEN part:
+    the invalidated frames of the old object then carry the id of the new one. -/
+theorem reviveE_data_some {e e' g : Nat} {m : State} {d : SignalData} (h : (reviveE e m).data e' g = some d) : m.data e' g = some d := by
+  by_cases he : e' = e
+  · subst he; rw [reviveE_data_self] at h; cases h
+  · rwa [reviveE_data_ne _ _ _ _ he] at h
+
+theorem sim_reviveE {m : State} {s : SState} {K : MStack} (e : Nat) (h : Sim m s K) (hd : m.emitters e = none)
+    (hfr : ∀ f ∈ m.frames, f.data.1 ≠ e) : Sim (reviveE e m) (Spec.reviveE e s) K where
+  nofault := h.nofault
+  f := by
+    refine ⟨h.f.links, ?_, ?_, ?_, ?_⟩
+    · intro e' g d hdd
+      by_cases he : e' = e
+      · subst he; rw [reviveE_data_self] at hdd; cases hdd
+      · rw [reviveE_data_ne _ _ _ _ he] at hdd; exact h.f.act e' g d hdd
+    · intro f hf hal
+      have hne := hfr f hf
+      rw [reviveE_data_ne _ _ _ _ hne]
+      apply h.f.hasData f hf
+      simpa [reviveE, State.setEmitter, hne] using hal
+    · intro f hf hi
+      have hne := hfr f hf
+      have := h.f.invDead f hf hi
+      simpa [reviveE, State.setEmitter, hne] using this
+    · intro e' g i he' ht
+      have hne : e' ≠ e := by
+        intro hh; subst hh; simp [reviveE, State.setEmitter] at he'
+      have : m.emitters e' = none := by simpa [reviveE, State.setEmitter, hne] using he'
+      exact h.f.deadInv e' g i this ht
+  sl := ⟨fun e' g d hdd => h.sl.clean e' g d (reviveE_data_some hdd), fun e' g d hdd => h.sl.allConn e' g d (reviveE_data_some hdd),
+    fun e' g d hdd => h.sl.sorted e' g d (reviveE_data_some hdd), fun e' g d hdd => h.sl.bound e' g d (reviveE_data_some hdd),
+    fun e' g d hdd => h.sl.obj e' g d (reviveE_data_some hdd)⟩
+  b := by
+    refine ⟨?_, ?_, ?_, h.b.lkeys⟩
+    · intro e' g d hdd
+      by_cases he : e' = e
+      · subst he; rw [reviveE_data_self] at hdd; cases hdd
+      · rw [reviveE_data_ne _ _ _ _ he] at hdd; exact h.b.recv e' g d hdd
+    · intro l li e' g x hl
+      have := h.b.count l li e' g x hl
+      by_cases he : e' = e
+      · subst he
+        rw [reviveE_data_self]
+        simpa [State.data, hd] using this
+      · rw [reviveE_data_ne _ _ _ _ he]; exact this
+    · intro e' em g hem hs
+      by_cases he : e' = e
+      · subst he
+        simp only [reviveE, State.setEmitter, if_true, Option.some.injEq] at hem
+        subst hem
+        simp at hs
+      · have : m.emitters e' = some em := by simpa [reviveE, State.setEmitter, he] using hem
+        exact h.b.ekeys e' em g this hs
+  abs := by
+    refine ⟨h.abs.clock, ?_, h.abs.lAlive, ?_, ?_, ?_, ?_, ?_⟩
+    · intro e'
+      by_cases he : e' = e
+      · subst he; simp [Spec.reviveE, reviveE, State.setEmitter]
+      · simp [Spec.reviveE, reviveE, State.setEmitter, he, h.abs.eAlive e']
+    · intro e' g
+      by_cases he : e' = e
+      · subst he; simp [Spec.reviveE, reviveE_data_self, liveOf, Sig.empty]
+      · rw [reviveE_data_ne _ _ _ _ he]; simp [Spec.reviveE, he, h.abs.live e' g]
+    · intro e' g hal
+      by_cases he : e' = e
+      · subst he
+        have : countFrames (reviveE e' m).frames (e', g) = 0 := countFrames_zero hfr
+        simp [Spec.reviveE, Sig.empty, this]
+      · simp only [Spec.reviveE, he, if_false]
+        exact h.abs.depth e' g (by simpa [reviveE, State.setEmitter, he] using hal)
+    · intro e' g hal
+      by_cases he : e' = e
+      · subst he
+        have : countFrames (reviveE e' m).frames (e', g) = 0 := countFrames_zero hfr
+        simp [Spec.reviveE, Sig.empty, this]
+      · simp only [Spec.reviveE, he, if_false]
+        exact h.abs.outer e' g (by simpa [reviveE, State.setEmitter, he] using hal)
+    · intro e' g d t hdd ht
+      by_cases he : e' = e
+      · subst he; rw [reviveE_data_self] at hdd; cases hdd
+      · rw [reviveE_data_ne _ _ _ _ he] at hdd
+        simp only [Spec.reviveE, he, if_false] at ht
+        exact h.abs.born e' g d t hdd ht
+    · intro e' g t ht
+      by_cases he : e' = e
+      · subst he; simp [Spec.reviveE, Sig.empty] at ht
+      · simp only [Spec.reviveE, he, if_false] at ht
+        exact h.abs.startLe e' g t ht
+  cur := by
+    refine cursors_mono (m := m) (m' := reviveE e m) (Nat.le_refl _) ?_ h.cur
+    intro e0 g0 d' hmem hal hd'
+    have hne : e0 ≠ e := by
+      obtain ⟨f, hf, hfd⟩ := List.mem_map.1 hmem
+      intro hh
+      exact hfr f hf (by rw [hfd]; exact hh)
+    rw [reviveE_data_ne _ _ _ _ hne] at hd'
+    exact ⟨by simpa [reviveE, State.setEmitter, hne] using hal, d', hd', fun _ _ _ hli => hli⟩
+
+/-- non-vacuity: an emitter destroyed at top level (no activation on the stack) and re-created at its id -/
+example : Sim (reviveE 0 (delEmitter 0 State.fresh)) (Spec.reviveE 0 (Spec.delE 0 SState.fresh)) [] :=
+  sim_reviveE 0 (sim_delE 0 sim_init rfl) (by simp [delEmitter, State.fresh, State.setEmitter]) (by intro f hf; simp [delEmitter, State.fresh, State.setEmitter] at hf)
 
 end Nstd.Callback
